@@ -59,6 +59,11 @@ class _GB:
     def __iter__(self):
         return iter([(k, _Group()) for k in self.keys])
 
+    @property
+    def groups(self):
+        # one row per key, default row labels 0..n-1
+        return {k: [i] for i, k in enumerate(self.keys)}
+
 
 class _Data:
     def __init__(self, columns, keys):
@@ -66,6 +71,13 @@ class _Data:
 
     def groupby(self, by, observed=False):
         return _GB(self.keys)
+
+    @property
+    def loc(self):
+        class _L:
+            def __getitem__(self, k):
+                return _Group()
+        return _L()
 
     def __iter__(self):
         return iter(self.columns_)
@@ -123,6 +135,136 @@ def _written_paths(part_cols, keys, hive):
     finally:
         _NSW["make_part_file"] = writer.make_part_file
     return [rg.columns[0].file_path for rg in rgs], opened, dirs
+
+
+# ---------------------------------------------------------------- rows of a frame reach the right part file ---
+class _Rows:
+    """a frame as partition_on_columns uses it: rows are (label, key, id); the pandas contracts of groupby / groups /
+    .loc / column selection / .empty / len"""
+
+    def __init__(self, rows, cats, columns=("k", "v")):
+        self.rows, self.cats, self.columns_ = list(rows), list(cats), list(columns)
+
+    def __iter__(self):
+        return iter(self.columns_)
+
+    def __len__(self):
+        return len(self.rows)
+
+    @property
+    def empty(self):
+        return len(self.rows) == 0
+
+    def __getitem__(self, cols):
+        return _Rows(self.rows, self.cats, cols)
+
+    def groupby(self, by, observed=False):
+        return _RowsGB(self)
+
+    @property
+    def loc(self):
+        return _Loc(self)
+
+
+class _Loc:
+    def __init__(self, frame):
+        self.frame = frame
+
+    def __getitem__(self, k):
+        labels, cols = k
+        # pandas: every requested label selects ALL rows carrying it
+        out = []
+        for lab in labels:
+            out += [r for r in self.frame.rows if r[0] == lab]
+        return _Rows(out, self.frame.cats, cols)
+
+
+class _RowsGB:
+    def __init__(self, frame):
+        self.frame = frame
+
+    def __iter__(self):
+        # observed=False: one group per category, also for categories that do not occur
+        return iter([(c, _Rows([r for r in self.frame.rows if r[1] == c], self.frame.cats, self.frame.columns_))
+                     for c in self.frame.cats])
+
+    @property
+    def groups(self):
+        return {c: [r[0] for r in self.frame.rows if r[1] == c] for c in self.frame.cats}
+
+
+def h_partition_rows(k0: int, k1: int, k2: int, l0: int, l1: int, l2: int, hive: bool) -> bool:
+    """
+    pre: all(0 <= x <= 1 for x in (k0, k1, k2)) and all(0 <= x <= 2 for x in (l0, l1, l2))
+    post: __return__
+    """
+    # three rows with partition keys k_i out of the categories {0, 1, 2} (2 never occurs) and row labels l_i (need not
+    # be unique: write_index=False keeps the caller's index): every row is handed to exactly one part file, the one of
+    # its own key; nothing is created for a key without rows; one row group per key that occurs
+    rows = [(l0, k0, 0), (l1, k1, 1), (l2, k2, 2)]
+    written, opened, dirs = {}, [], []
+
+    def make_part_file(f, data, schema, compression=None, fmd=None, stats=True):
+        written[f.path] = written.get(f.path, []) + [r[2] for r in data.rows]
+        if len(data) == 0:
+            return None
+        md = parquet_thrift.ColumnMetaData(type=2, path_in_schema=["v"], num_values=len(data))
+        return parquet_thrift.RowGroup(num_rows=len(data), columns=[parquet_thrift.ColumnChunk(meta_data=md)])
+
+    class _F:
+        def __init__(self, path):
+            self.path = path
+
+        def __enter__(self):
+            return self
+
+        def __exit__(self, *a):
+            return False
+    _NSW["make_part_file"] = make_part_file
+    try:
+        rgs = POC(_Rows(rows, [0, 1, 2]), ["k"], "root", "part.0.parquet", parquet_thrift.FileMetaData(schema=[]),
+                  None, lambda p, m: (opened.append(p), _F(p))[1], lambda p: dirs.append(p), with_field=hive)
+    finally:
+        _NSW["make_part_file"] = writer.make_part_file
+    keys = sorted({k0, k1, k2})
+    want = {}
+    for lab, key, rid in rows:
+        want.setdefault("root/%s/part.0.parquet" % (("k=%d" % key) if hive else "%d" % key), []).append(rid)
+    if sorted(opened) != sorted(want) or len(dirs) != len(want) or len(rgs) != len(keys):
+        return False
+    if {p: sorted(v) for p, v in written.items()} != want:
+        return False
+    return sorted(rg.num_rows for rg in rgs) == sorted(len(v) for v in want.values())
+
+
+def replay_h_partition_rows(k0, k1, k2, l0, l1, l2, hive):
+    """a real frame with the witness's keys (categorical with an unused category) and row labels, written with
+    write_index=False: rows per partition and the files present"""
+    import shutil, tempfile
+    import pandas as pd
+    import fastparquet
+    d = tempfile.mkdtemp(prefix="c08-")
+    try:
+        dn = os.path.join(d, "ds")
+        df = pd.DataFrame({"k": pd.Categorical([k0, k1, k2], categories=[0, 1, 2]), "v": [0, 1, 2]},
+                          index=[l0, l1, l2])
+        fastparquet.write(dn, df, file_scheme="hive" if hive else "drill", partition_on=["k"], write_index=False)
+        files = sorted(os.path.relpath(os.path.join(dp, f), dn) for dp, _, fs in os.walk(dn) for f in fs
+                       if f.startswith("part."))
+        pf = fastparquet.ParquetFile(dn)
+        ref = sorted({rg.columns[0].file_path for rg in pf.row_groups})
+        if files != ref:
+            return True, "part files on disk %r, referenced by _metadata %r (keys %r, category 2 unused)" % (
+                files, ref, [k0, k1, k2])
+        out = pf.to_pandas()
+        cname = "k" if hive else "dir0"
+        got = sorted((int(k), int(v)) for k, v in zip(out[cname], out["v"]))
+        want = sorted(zip([k0, k1, k2], [0, 1, 2]))
+        if got != want:
+            return True, "rows (key, v) written %r with row labels %r read back as %r" % (want, [l0, l1, l2], got)
+        return False, "agrees"
+    finally:
+        shutil.rmtree(d, ignore_errors=True)
 
 
 class _Arr:
